@@ -70,12 +70,36 @@ pub open spec fn texts(v: Seq<VString>) -> Set<Seq<char>> decreases v.len() { if
     ensures final(v)@.len() >= old(v)@.len(), final(v)@.subrange(0, old(v)@.len() as int) == old(v)@, texts(final(v)@.subrange(old(v)@.len() as int, final(v)@.len() as int)) == s.s@ { unimplemented!() }
 pub fn vec1s(a: VString) -> (r: Vec<VString>) ensures r@ == seq![a] { let mut v = Vec::new(); v.push(a); v }
 pub fn vec2(a: CompiledItem, b: CompiledItem) -> (r: Vec<CompiledItem>) ensures r@ == seq![a, b] { let mut v = Vec::new(); v.push(a); v.push(b); v }
+#[verifier::external_body] pub struct ClassBodyV { x: usize }
+pub uninterp spec fn body_code(b: &ClassBodyV) -> Option<Seq<CompiledItem>>;
+impl ClassBodyV { #[verifier::external_body] pub fn compile(&self, s: &mut CompilationState) -> (r: Result<Vec<CompiledItem>, VErr>) ensures r is Ok <==> body_code(self) is Some, r is Ok ==> r->Ok_0@ == body_code(self)->Some_0 { unimplemented!() } }
+pub struct ClassFlags { pub export: bool }
+pub struct Class { pub name: VString, pub class_name: VString, pub body: ClassBodyV, pub path_str: VString, pub flags: ClassFlags, pub deps: Vec<DepV> }
+impl Class { #[verifier::external_body] pub fn net_dependencies(&self) -> (r: Vec<DepV>) ensures r@ == self.deps@ { unimplemented!() } }
+pub open spec fn dep_texts(ds: Seq<DepV>) -> Seq<Seq<char>> { ds.map_values(|d: DepV| dep_name(&d)) }
+pub open spec fn arg_texts(v: Seq<VString>) -> Seq<Seq<char>> { v.map_values(|a: VString| text_of(&a)) }
 pub struct MemberFunction { pub name: VString, pub parameters: ParamsV, pub body: BlockV, pub path_str: VString, pub class_name: VString, pub deps: Vec<DepV> }
 impl MemberFunction {
     pub fn symbolic_id(&self) -> (r: VString) ensures text_of(&r) == method_id(text_of(&self.class_name), text_of(&self.name)) { fmt_method_id(&self.class_name, &self.name) }      // its text: format!("{}::{}", class, ident) (read below)
     #[verifier::external_body] pub fn net_dependencies(&self) -> (r: Vec<DepV>) ensures r@ == self.deps@ { unimplemented!() }
 }
 """
+
+
+def _two(toks):
+    items, cur, d = [], [], 0
+    for t in toks:
+        if t in ("(", "[", "{"): d += 1
+        elif t in (")", "]", "}"): d -= 1
+        if t == "," and d == 0:
+            if cur: items.append(cur)
+            cur = []
+        else:
+            cur.append(t)
+    if cur: items.append(cur)
+    if len(items) != 2:
+        raise Undecided("Class::compile: the statement no longer yields exactly two items")
+    return "vec2 ( " + text(items[0]) + " , " + text(items[1]) + " )"
 
 
 def build(repo):
@@ -125,8 +149,28 @@ def build(repo):
     bm = Rule("R11", "let mut arguments =", [G("proof { assert(dependencies@.subrange(0, dependencies@.len() as int) =~= dependencies@); }"), "let mut arguments ="], count=1, why="").apply(bm, log)
     bm = Rule("R11", "extend_from_set ( & mut arguments , dependency_list ) ;", ["extend_from_set ( & mut arguments , dependency_list ) ;", G("proof { assert(arguments@.subrange(0, 1)[0] == arguments@[0]); }")], count=1, why="").apply(bm, log)
     check_closed(bm, "MemberFunction::compile")
-    gen = header(log, f"{BODY}: ClassBody::compile; {MEMBER}: MemberFunction::compile, symbolic_id") + prelude("compile.rs").replace("pub struct CompilationState;", "") + \
-        opcode_consts(ids, ["void", "ret", "make_function", "store_fast"]) + SPEC + f"""
+    # ---- Class::compile (the declaration statement)
+    fc = src.fn(CLASS, "compile", "impl Compile for Class")
+    CINV = ("invariant $K <= $V.len(), arguments@.len() == 1 + $K, arguments@[0] == verif_label, forall|j: int| 0 <= j < $K ==> text_of(&#[trigger] arguments@[1 + j]) == dep_name(&$V@[j]) decreases $V.len() - $K")
+    bc = translate(fc["body"], [
+        Rule("R1", "let id = CompiledFunctionId :: Custom ( self . class_type . name ( ) . to_owned ( ) ) ;", "let id = clone_vs ( & self . class_name ) ;", count=1, why="a custom id displays as its text: the class's name"),
+        Rule("R1", "id . clone ( )", "clone_vs ( & id )", why="String clone"),
+        Rule("R1", "Arc :: clone ( & self . path_str )", "clone_vs ( & self . path_str )", why="Arc<PathBuf> clone"),
+        Rule("R6", "state . push_function ( $x ) ;", "push_function ( state , $x ) ;", why="list of the file's functions as explicit state (R10)"),
+        Rule("R1", "let name = self . ident . name ( ) ;", "let name = & self . name ;", why="the declared name"),
+        Rule("R9", "let function_name = format ! ( \"{}#{id}\" , self . path_str . bytecode_str ( ) ) ;", "let function_name = fmt_label ( & self . path_str , & id ) ;", count=1, why="format!(\"{}#{id}\"): the label"),
+        Rule("R3", "if self . flags . export { $$b }", "", why="logging only"),
+        Rule("R12", "let mut arguments = vec ! [ function_name ] ;", ["let mut arguments = vec1s ( function_name ) ;", G("let ghost verif_label = arguments@[0];")], count=1, why="vec![a]"),
+        Rule("R1", "for dependency in self . net_dependencies ( ) {", "let verif_deps = self . net_dependencies ( ) ; for dependency in verif_deps {", why="the iterated vector named"),
+        Rule("R1", "dependency . name ( ) . to_owned ( )", "dependency . name_owned ( )", why="the dependency's name"),
+        Rule("R1", "arguments : arguments . into ( ) ,", "arguments : arguments ,", why="Vec -> Box<[T]>: the same items"),
+        Rule("R12", "Ok ( vec ! [ $$a ] )", lambda bb: "Ok ( " + _two(bb["a"]) + " )", why="vec![a, b]"),
+        r_instruction(ids),
+    ], log, "Class::compile")
+    bc = for_in_vec("cd", CINV).apply(bc, log)
+    check_closed(bc, "Class::compile")
+    gen = header(log, f"{BODY}: ClassBody::compile; {MEMBER}: MemberFunction::compile, symbolic_id; {CLASS}: Class::compile") + prelude("compile.rs").replace("pub struct CompilationState;", "") + \
+        opcode_consts(ids, ["void", "ret", "make_function", "store_fast", "export_special"]) + SPEC + f"""
 impl ClassBody {{
     //@ OBL C08.class_body.layout
     #[verifier::loop_isolation(false)]
@@ -164,6 +208,24 @@ impl MemberFunction {{
 {render(bm, 2)}
     }}
 }}
+impl Class {{
+    //@ OBL C08.class.declaration
+    #[verifier::loop_isolation(false)]
+    pub fn compile(&self, state: &mut CompilationState) -> (r: Result<Vec<CompiledItem>, VErr>)
+        ensures
+            r is Ok <==> body_code(&self.body) is Some,
+            // the class body is registered, last, as ONE function under the class's name, in this file, with the body's code as it is
+            r is Ok ==> pushed(final(state)).len() >= 1 && ({{ let f = pushed(final(state)).last();
+                f is Function && text_of(&f->Function_id) == text_of(&self.class_name) && f->location == self.path_str && f->content is Some && f->content->Some_0@ == body_code(&self.body)->Some_0 }}),
+            // the statement itself: the class-body function made from exactly that label over exactly the class's free variables, in their order, then registered under the declared name
+            r is Ok ==> r->Ok_0@.len() == 2 && is_instr(r->Ok_0@[0], MAKE_FUNCTION) && nargs(r->Ok_0@[0]) == 1 + self.deps@.len()
+                && argt(r->Ok_0@[0], 0) == label_of(text_of(&self.path_str), text_of(&self.class_name))
+                && (forall|j: int| 0 <= j < self.deps@.len() ==> argt(r->Ok_0@[0], 1 + j) == dep_name(&#[trigger] self.deps@[j])),
+            r is Ok ==> is_instr(r->Ok_0@[1], EXPORT_SPECIAL) && nargs(r->Ok_0@[1]) == 2 && r->Ok_0@[1]->arguments@[0] == self.name && text_of(&r->Ok_0@[1]->arguments@[1]) == text_of(&self.class_name),
+    {{
+{render(bc, 2)}
+    }}
+}}
 //@ OBL C08.method.symbolic-id
 proof fn symbolic_id_is_class_colon_method() {{ assert({'true' if sid_ok else 'false'}); }}     // MemberFunction::symbolic_id == format!("{{}}::{{}}", class name, method name) (read from the source)
 }} // verus!
@@ -171,6 +233,7 @@ fn main() {{}}
 """
     obls = [Obl("C08.class_body.layout", ["C08", "C09", "C01"], fn="ClassBody::compile", desc="ClassBody::compile: every member's code once, in declaration order, then the constructor part, then `ret`"),
             Obl("C08.method.layout", ["C08", "C09", "C01"], fn="MemberFunction::compile", desc="MemberFunction::compile: the method is registered once as `Class::method` with code prologue ++ body ++ implicit `void; ret`; the class-body frame gets `make_function FILE#Class::method <free variables>; store_fast Class::method`"),
+            Obl("C08.class.declaration", ["C08", "C09", "C11"], fn="Class::compile", desc="Class::compile: the class body is registered as one function under the class's name; the statement is `make_function FILE#Class <free variables in order>; export_special name Class`"),
             Obl("C08.method.symbolic-id", ["C08"], fn="MemberFunction::symbolic_id", desc="a method's id is `Class::method`")]
     return gen, obls, log
 
@@ -178,4 +241,4 @@ fn main() {{}}
 UNITS = [VUnit("c08_class_compile", ["C08", "C09", "C01"], "the code of a class body and of a method", build)]
 UNITS[0].assumes = ["children's compile abstract: arbitrary code, but a fixed one per child (so that order and multiplicity can be stated)",
                     "HashSet<String> as a ghost set; Vec::extend(HashSet) yields every member once in an unspecified order; format! of the label / the method id as uninterpreted functions of their parts",
-                    "the free variables come from net_dependencies (unit c07_net_deps); Class::compile (the declaration statement) is not in this unit"]
+                    "the free variables come from net_dependencies (unit c07_net_deps)"]
